@@ -1,0 +1,5 @@
+//go:build !verif
+
+package gcsutil
+
+func verifYield(string, string) {}
